@@ -41,6 +41,7 @@ func C11(c *vf.Ctx) {
 			{Small: false, Soft: true, Points: []string{"conn.meta.written"}, Threads: thr2},
 			{Small: true, Soft: false, Threads: thr2},
 		},
+		scen:    []string{"metadata-then-abandoned"},
 		kinds:   []string{"start", "hstep", "relw", "deliver", "cancel", "point"},
 		weights: map[string]int{"invoke": 6, "newstream": 3, "op": 3, "hstep": 8, "relw": 12, "deliver": 9, "cancel": 4, "point": 3},
 		tail: func(w *sys.World, rng *rand.Rand, ts *tailState) {
@@ -98,6 +99,7 @@ func C10(c *vf.Ctx) {
 			{Small: false, Threads: thr2},
 			{Small: false, Manual: true, Soft: true, Threads: thr2},
 		},
+		scen:    []string{"undecodable-message"},
 		kinds:   []string{"start", "hstep", "relw", "deliver"},
 		weights: map[string]int{"invoke": 3, "newstream": 3, "op": 5, "hstep": 8, "relw": 10, "deliver": 10},
 		tail: func(w *sys.World, rng *rand.Rand, ts *tailState) {
@@ -173,7 +175,7 @@ func C10(c *vf.Ctx) {
 				}
 				got := 0
 				for _, p := range v.ops {
-					if p.R == o.R && (p.Kind == "Recv" || p.Kind == "Invoke") && strings.HasPrefix(p.Res, "msg:") && p.End <= o.End {
+					if p.R == o.R && (p.Kind == "Recv" || p.Kind == "Invoke") && (strings.HasPrefix(p.Res, "msg:") || p.Res == "decodeErr") && p.End <= o.End {
 						got++
 					}
 				}
